@@ -364,6 +364,21 @@ func doGetProfileJSONTag(structType reflect.Type, structVal reflect.Value) (stri
 	var foundByFieldName *reflect.StructField
 	var embeds []embedded
 
+	// an embedded interface usually holds a pointer to the struct (see
+	// collectEmbedded); look at what it points to, like the serializers do
+	if structType.Kind() == reflect.Pointer {
+		if structVal.IsNil() {
+			return "", errNoProfile
+		}
+
+		structType = structType.Elem()
+		structVal = structVal.Elem()
+	}
+
+	if structType.Kind() != reflect.Struct {
+		return "", errNoProfile
+	}
+
 	for i := 0; i < structVal.NumField(); i++ {
 		typeField := structType.Field(i)
 		valField := structVal.Field(i)
